@@ -1699,3 +1699,98 @@ def assigns_model(repo):
             out.append(('assigns', 'every attribute assignment is booked on its own receiver', False, 'assigns raises %s' % e, None))
         return out
     return repo.memo('assigns-model', build)
+
+
+# ---------------------------------------------------------------------------
+# module cache across edit histories (C09)
+# ---------------------------------------------------------------------------
+
+PROJECT = 'supp/project.py'
+
+
+def cache_history_model(repo, depth=3):
+    """Project.get_module / check_changes / SourceModule.changed interpreted on a modelled file system with scripted
+    modification times, over every history of length <= depth built from: edit a module (new, larger mtime), restore an
+    older revision (smaller mtime), request a module inside a change-checking context, a request that fails after it
+    validated its module, creation of a module that did not exist.  After every history each module requested inside a fresh
+    context must have been loaded from the current state of its file: its recorded mtime is the file's current mtime."""
+    def build():
+        import itertools
+        facts = get_facts(repo)
+        it = Interp(repo, facts)
+        it.module_env(PROJECT)['SUFFIXES'] = ['.py']
+        it.sys_path = []
+        it.sys_modules = {}
+        proj_cls = facts.classes.get('Project')
+        if proj_cls is None:
+            raise AnalysisError('Project vanished')
+        out = []
+        ops = ['edit a', 'edit b', 'restore a', 'request a', 'request b', 'failing request a', 'create c', 'request c']
+        bad = []
+        n = 0
+
+        def request(p, name, fail=False):
+            """-> loaded module's mtime | 'ImportError'"""
+            cm = it.call(it.getattr(p, 'check_changes'), [], {})
+            it.call(it.getattr(cm, '__enter__'), [], {})
+            err = None
+            try:
+                m = it.call(it.getattr(p, 'get_module'), [name], {})
+                if fail:
+                    raise InterpRaise('SyntaxError', 'the request fails after its module was validated')
+                r = m.attrs.get('mtime') if isinstance(m, Obj) else m
+            except InterpRaise as e:
+                err = e
+                r = e.exc_name
+            it.call(it.getattr(cm, '__exit__'), [err.exc_name if err else None, err, None], {})
+            return r
+
+        for k in range(1, depth + 1):
+            for hist in itertools.product(ops, repeat=k):
+                if hist[-1] not in ('request a', 'request b', 'request c'):
+                    continue
+                n += 1
+                it.reset_path([])
+                it.fs = {'<S>/a.py', '<S>/b.py'}
+                it.mtimes = {'<S>/a.py': 100, '<S>/b.py': 100}
+                clock = [100]
+                try:
+                    p = it.instantiate(proj_cls, [['<S>']], {})
+                    request(p, 'a')
+                    request(p, 'b')        # both modules are cached by the long-lived project
+                    got = want = None
+                    for op in hist:
+                        kind, _, mod = op.rpartition(' ')
+                        path = '<S>/%s.py' % mod
+                        if kind == 'edit':
+                            clock[0] += 10
+                            it.mtimes[path] = clock[0]
+                        elif kind == 'restore':
+                            it.mtimes[path] = it.mtimes[path] - 7
+                        elif kind == 'create':
+                            if path not in it.fs:
+                                clock[0] += 10
+                                it.fs.add(path)
+                                it.mtimes[path] = clock[0]
+                        elif kind == 'failing request':
+                            request(p, mod, fail=True)
+                        elif kind == 'request':
+                            got = request(p, mod)
+                            want = it.mtimes.get(path, 'ImportError') if path in it.fs else 'ImportError'
+                            if got != want:
+                                bad.append((hist, op, got, want))
+                                break
+                except Uninterpretable as e:
+                    raise AnalysisError('the module cache is outside the interpretable subset: %s' % e)
+                except InterpRaise as e:
+                    bad.append((hist, 'exception', '%s: %s' % (e.exc_name, e.msg), None))
+        it.mtimes = None
+        bad.sort(key=lambda b: len(b[0]))
+        out.append(('history', 'every request sees the current state of its module (histories up to length %d)' % depth, not bad,
+                    'after the history %s the request `%s` was served a module loaded at mtime %s while the file is at %s: a '
+                    'long-lived project answers from a stale analysis where a new project would read the file'
+                    % ((' ; '.join(bad[0][0]), bad[0][1], bad[0][2], bad[0][3]) if bad else ('', '', '', '')),
+                    '%d histories: the served module always carries the current mtime' % n))
+        out.append(('history-count', 'histories explored', n >= 100, 'only %d histories' % n, None))
+        return out
+    return repo.memo('cache-history-model-%d' % depth, build)
